@@ -30,6 +30,7 @@ type Run struct {
 	T      *Tape
 
 	Viol     []Violation
+	KnownHit []Violation
 	trace    []string
 	traceCut int
 	h        uint64 // rolling hash of the event log
@@ -43,6 +44,10 @@ type Run struct {
 	// Quiet suppresses trace storage (used while shrinking).
 	Quiet bool
 }
+
+// KnownSigs are the signatures listed as known findings (VERIF_KNOWN_SIGS, set by the supervisor
+// from known_findings.jsonl; never written at run time).
+var KnownSigs = map[string]bool{}
 
 // Cur is the run currently executing in this process (one at a time).
 var Cur *Run
@@ -83,6 +88,18 @@ func (r *Run) Trace() []string {
 // Fail records a violation (the run continues unless the caller stops it).
 func (r *Run) Fail(sig string, format string, args ...interface{}) {
 	d := fmt.Sprintf(format, args...)
+	if KnownSigs[sig] {
+		// a listed known finding: recorded, reported by the supervisor as KNOWN-FINDING, and the
+		// run goes on so that the finding does not mask the rest of the exploration
+		r.Event("KNOWN-FINDING %s: %s", sig, d)
+		for _, v := range r.KnownHit {
+			if v.Sig == sig {
+				return
+			}
+		}
+		r.KnownHit = append(r.KnownHit, Violation{Sig: sig, Detail: d})
+		return
+	}
 	r.Event("VIOLATION %s: %s", sig, d)
 	for _, v := range r.Viol {
 		if v.Sig == sig {
@@ -230,6 +247,7 @@ type WorkerResult struct {
 	SimTimeNs   int64             `json:"sim_time_ns"`
 	Samples     []Sample          `json:"samples"`
 	Violations  []WorkerViolation `json:"violations"`
+	Known       []WorkerViolation `json:"known"`
 	SeedHashes  map[string]string `json:"seed_hashes"` // run seed -> event-log hash (determinism check)
 	WallS       float64           `json:"wall_s"`
 	Ops         int64             `json:"ops"`
@@ -317,6 +335,7 @@ func replayMain(prop string, f RunFunc) {
 		EngineError("replay file is for %s, not %s", rf.Property, prop)
 	}
 	r := Execute(prop, rf.Config, rf.Seed, NewReplayTape(rf.Seed, rf.Tape), f, false)
+	r.Viol = append(r.Viol, r.KnownHit...)
 	for _, l := range r.Trace() {
 		fmt.Println("  | " + l)
 	}
@@ -351,7 +370,13 @@ func searchMain(prop, config string, f RunFunc, out string) {
 		}
 	}
 
+	for _, k := range strings.Split(os.Getenv("VERIF_KNOWN_SIGS"), "\x1f") {
+		if k != "" {
+			KnownSigs[k] = true
+		}
+	}
 	start := time.Now()
+	knownSeen := map[string]bool{}
 	res := WorkerResult{Property: prop, Config: config, Worker: worker,
 		Counters: map[string]int64{}, SeedHashes: map[string]string{}}
 	nontrivial := map[uint64]struct{}{}
@@ -399,6 +424,18 @@ func searchMain(prop, config string, f RunFunc, out string) {
 				tr = append(append([]string{}, tr[:60]...), fmt.Sprintf("... %d more events", len(tr)-60))
 			}
 			res.Samples = append(res.Samples, Sample{Seed: seed, Trace: tr})
+		}
+		for _, v := range r.KnownHit {
+			res.Counters["known:"+v.Sig]++
+			if !knownSeen[v.Sig] {
+				knownSeen[v.Sig] = true
+				// one (unshrunk) replay per worker identifies the finding
+				rf := ReplayFile{Property: prop, Seed: seed, Config: config, Signature: v.Sig, Detail: v.Detail, Tape: t.Rec, TapeLen0: len(t.Rec), Trace: r.Trace()}
+				path := filepath.Join(out, fmt.Sprintf("%s-%d-%s.json", prop, seed, sig8(v.Sig)))
+				b, _ := json.MarshalIndent(rf, "", " ")
+				os.WriteFile(path, b, 0o644)
+				res.Known = append(res.Known, WorkerViolation{Sig: v.Sig, Detail: v.Detail, Seed: seed, Replay: path, Count: 1})
+			}
 		}
 		for _, v := range r.Viol {
 			seenSig[v.Sig]++
